@@ -36,9 +36,11 @@ func checkC12(p *Prog, r *Report) {
 	r.rule("C12.K4", "_itimediff is int32(later - earlier); currentMs is the only clock source of the core and truncates to uint32", 2)
 	r.rule("C12.K5", "paws is computed as 0xffffffff / shardSize * shardSize at every store; every advance of the encoder id is reduced modulo paws", 5)
 	r.rule("C12.K7", "a value compared by signed difference has no meaningful zero: the FEC decoder's newest group id is taken from the first packet unconditionally and invalidated when its unit (shardSize) changes (= C16.T9) — otherwise behaviour depends on where in the 32-bit space the ids start", 2)
+	r.rule("C12.K8", "a local that serves as the reference of a signed-difference comparison holds a protocol value when it is compared: a local declared without a value (or with a constant) is assigned from a non-constant on every path to the comparison, or the comparison sits behind a flag that is raised only next to such an assignment — a reference that starts at literal 0 makes the outcome depend on which half of the 32-bit space the numbers are in", 1)
 	r.rule("C12.K6", "a core timer field that does not start from the clock (constructor constant or zero value, i.e. an absolute clock position) is compared with the clock only after it has been re-based: every read in a signed difference lies behind a store from the clock or behind a test of an 'initialised' field whose zero edge stores from the clock or returns", 3)
 	checkTimerRebase(p, r)
 	checkNewestGroupInit(p, r, "C12.K7")
+	checkLocalReferenceAssigned(p, r)
 	ka := p.Kinds()
 	seen := map[string]int{}
 	key := func(fn *FuncInfo, n ast.Node, what string) string {
@@ -569,4 +571,138 @@ func checkTimerRebase(p *Prog, r *Report) {
 			})
 		}
 	}
+}
+
+// checkLocalReferenceAssigned: C12.K8.
+func checkLocalReferenceAssigned(p *Prog, r *Report) {
+	diff := p.FuncByName("_itimediff")
+	if diff == nil || diff.Obj == nil {
+		return
+	}
+	n := 0
+	for _, s := range p.CallsTo(diff.Obj) {
+		root := rootFuncInfo(s.Fn)
+		for ai, arg := range s.Call.Args {
+			e := ast.Unparen(arg)
+			for {
+				if call, ok := e.(*ast.CallExpr); ok && len(call.Args) == 1 && p.Info.Types[call.Fun].IsType() {
+					e = ast.Unparen(call.Args[0])
+					continue
+				}
+				break
+			}
+			id, ok := e.(*ast.Ident)
+			if !ok {
+				continue
+			}
+			v, _ := p.Info.Uses[id].(*types.Var)
+			if v == nil || v.IsField() || p.isParam(v) || v.Parent() == p.Types.Scope() || v.Pkg() != p.Types {
+				continue
+			}
+			// how is it declared?
+			as := p.Assignments(root, v)
+			constInit := false
+			var real []ast.Node
+			for _, a := range as {
+				if a.Rhs == nil {
+					if _, isSpec := a.Node.(*ast.ValueSpec); isSpec {
+						constInit = true // var x T
+						continue
+					}
+					real = append(real, a.Node) // multi-value assignment from a call
+					continue
+				}
+				if t := p.Term(a.Rhs); t.IsConst() {
+					if a.Tok == token.DEFINE || isValueSpec(a.Node) {
+						constInit = true
+					}
+					continue
+				}
+				real = append(real, a.Node)
+			}
+			if !constInit {
+				continue
+			}
+			n++
+			construct := fmt.Sprintf("reference %s of _itimediff (argument %d) in %s", v.Name(), ai+1, s.Fn.Name)
+			c := p.CFG(s.Fn)
+			at, okAt := c.PointOf(s.Call)
+			if !okAt || s.Fn != root {
+				r.bad("C12.K8", s.Fn.Name, p.Pos(s.Call), construct, "comparison inside a function literal: not followed", "")
+				continue
+			}
+			isReal := func(nd ast.Node, _ Point) bool {
+				for _, x := range real {
+					if x == nd {
+						return true
+					}
+				}
+				return false
+			}
+			res := c.FindPath(PathQuery{From: Point{c.Entry(), 0}, IsTarget: func(_ ast.Node, q Point) bool { return q == at }, IsBarrier: isReal})
+			if !res.Found {
+				r.ok("C12.K8", s.Fn.Name, p.Pos(s.Call), construct, "assigned from a protocol value on every path to the comparison")
+				continue
+			}
+			// flag idiom: a dominating test flag != 0 / flag whose raising assignments sit next to an assignment of v
+			okFlag := ""
+			for _, cd := range c.DominatingConds(at) {
+				for _, cj := range Conjuncts(cd) {
+					var fv *types.Var
+					switch {
+					case cj.Op == "var":
+						fv, _ = cj.Obj.(*types.Var)
+					case (cj.Op == "!=" || cj.Op == "<") && len(cj.Args) == 2:
+						for i := 0; i < 2; i++ {
+							if cj.Args[i].IsConst() && cj.Args[i].Int == 0 && cj.Args[1-i].Op == "var" {
+								fv, _ = cj.Args[1-i].Obj.(*types.Var)
+							}
+						}
+					}
+					if fv == nil || fv == v || p.isParam(fv) {
+						continue
+					}
+					raised, okAll := 0, true
+					for _, fa := range p.Assignments(root, fv) {
+						if fa.Rhs != nil {
+							if t := p.Term(fa.Rhs); (t.IsConst() && t.Int == 0 || t.Op == "false") && fa.Tok != token.OR_ASSIGN && fa.Tok != token.ADD_ASSIGN {
+								continue
+							}
+						} else if isValueSpec(fa.Node) {
+							continue
+						}
+						raised++
+						fp, okP := c.PointOf(fa.Node)
+						next := false
+						if okP {
+							for _, nd := range fp.B.Nodes {
+								if isReal(nd, Point{}) {
+									next = true
+								}
+							}
+						}
+						if !next {
+							okAll = false
+						}
+					}
+					if raised > 0 && okAll {
+						okFlag = fv.Name()
+					}
+				}
+			}
+			if okFlag != "" {
+				r.ok("C12.K8", s.Fn.Name, p.Pos(s.Call), construct, "compared only behind "+okFlag+", which is raised only next to an assignment of "+v.Name())
+			} else {
+				r.bad("C12.K8", s.Fn.Name, p.Pos(s.Call), construct, v.Name()+" still holds its initial constant on a path to this comparison: the signed difference is taken against literal 0 instead of a protocol value, so the branch goes one way for numbers below 2^31 and the other way above — behaviour depends on the starting offset of the sequence/clock space", c.DescribePath(res.Path))
+			}
+		}
+	}
+	if n == 0 {
+		r.ok("C12.K8", "package", "-", "constant-initialised references of _itimediff", "none")
+	}
+}
+
+func isValueSpec(n ast.Node) bool {
+	_, ok := n.(*ast.ValueSpec)
+	return ok
 }
